@@ -321,9 +321,127 @@ func (k *skel) stmt(in *inst, st ast.Stmt) {
 		k.emit("}")
 	case *ast.SelectStmt:
 		k.emit("select")
+	case *ast.AssignStmt:
+		k.expr(in, st)
+		// data flow between the facts: an assignment to a local whose value reaches a guard, a loop condition or an
+		// index / slice bound on the peer's bytes (offset arithmetic, which result of a decoder goes where, the order of
+		// an update relative to the test that follows), and every reset of a field to nil
+		feeds, resets := false, false
+		F := in.feeding()
+		for _, l := range s.Lhs {
+			if id, ok := l.(*ast.Ident); ok && id.Obj != nil && F[id.Obj] {
+				feeds = true
+			}
+			if _, ok := l.(*ast.SelectorExpr); ok {
+				for _, r := range s.Rhs {
+					if id, ok := r.(*ast.Ident); ok && id.Obj == nil && id.Name == "nil" {
+						resets = true
+					}
+				}
+			}
+		}
+		switch {
+		case feeds:
+			k.emit("asg: " + show(s))
+		case resets:
+			k.emit("set: " + show(s))
+		}
+	case *ast.IncDecStmt:
+		k.expr(in, st)
+		if id, ok := s.X.(*ast.Ident); ok && id.Obj != nil && in.feeding()[id.Obj] {
+			k.emit("asg: " + show(s))
+		}
 	default:
 		k.expr(in, st)
 	}
+}
+
+// feeding: the locals (and parameters) of the function whose value reaches a guard (an `if` with a leaving branch), a
+// `for` condition, a switch tag or an index / slice bound on the peer's bytes - directly, or through an assignment to
+// such a local.
+func (in *inst) feeding() map[*ast.Object]bool {
+	if in.feed != nil {
+		return in.feed
+	}
+	F := map[*ast.Object]bool{}
+	add := func(e ast.Node) (grew bool) {
+		if e == nil {
+			return
+		}
+		ast.Inspect(e, func(n ast.Node) bool {
+			if _, ok := n.(*ast.FuncLit); ok {
+				return false
+			}
+			if id, ok := n.(*ast.Ident); ok && id.Obj != nil && id.Obj.Kind == ast.Var && !F[id.Obj] {
+				F[id.Obj] = true
+				grew = true
+			}
+			return true
+		})
+		return
+	}
+	ast.Inspect(in.fd.Body, func(n ast.Node) bool {
+		switch x := n.(type) {
+		case *ast.IfStmt:
+			// a GUARD: one of the branches leaves the function / loop (an `if` that only chooses what to count or print
+			// is not what the peer's bytes are checked by)
+			if eb, ok := x.Else.(*ast.BlockStmt); leaves(x.Body) || (ok && leaves(eb)) {
+				add(x.Cond)
+			}
+		case *ast.ForStmt:
+			if x.Cond != nil {
+				add(x.Cond)
+			}
+		case *ast.SwitchStmt:
+			if x.Tag != nil {
+				add(x.Tag)
+			}
+		case *ast.CaseClause:
+			for _, e := range x.List {
+				add(e)
+			}
+		case *ast.IndexExpr:
+			if in.isPayload(x.X) {
+				add(x.Index)
+			}
+		case *ast.SliceExpr:
+			if in.isPayload(x.X) {
+				if x.Low != nil {
+					add(x.Low)
+				}
+				if x.High != nil {
+					add(x.High)
+				}
+				if x.Max != nil {
+					add(x.Max)
+				}
+			}
+		}
+		return true
+	})
+	for grew := true; grew; {
+		grew = false
+		ast.Inspect(in.fd.Body, func(n ast.Node) bool {
+			if as, ok := n.(*ast.AssignStmt); ok {
+				hit := false
+				for _, l := range as.Lhs {
+					if id, ok := l.(*ast.Ident); ok && id.Obj != nil && F[id.Obj] {
+						hit = true
+					}
+				}
+				if hit {
+					for _, r := range as.Rhs {
+						if add(r) {
+							grew = true
+						}
+					}
+				}
+			}
+			return true
+		})
+	}
+	in.feed = F
+	return F
 }
 
 // skeletonOf returns the numbered skeleton of a function and the legend of its canonical names.
